@@ -210,7 +210,18 @@ class Constant(Expression):
 
     def __init__(self, value: float | int | ArrayLike) -> None:
         self._hash = None
-        self.value = np.asarray(value) if not isinstance(value, (int, float)) else value
+        if isinstance(value, (int, float)):
+            self.value = value
+        else:
+            arr = np.asarray(value)
+            # Widen narrow NumPy numbers (np.uint8(60), np.int16, np.float32, ...):
+            # a constant stands for its number, and arithmetic carried out in the
+            # narrow type wraps around or loses precision (np.int8(100) * 2 == -56)
+            if arr.dtype.kind in "iu" and arr.dtype.itemsize < 8:
+                arr = arr.astype(np.int64)
+            elif arr.dtype.kind == "f" and arr.dtype.itemsize < 8:
+                arr = arr.astype(np.float64)
+            self.value = arr
 
     def evaluate(
         self, values: Mapping[str, ArrayLike | float]
